@@ -6,6 +6,7 @@ package props
 
 import (
 	"fmt"
+	"net"
 	"testing"
 
 	kcp "github.com/xtaci/kcp-go/v5"
@@ -373,6 +374,139 @@ func TestC04SessionWrite(t *testing.T) {
 		rec.Case(hx.Hash64(describePair(cfg, fs, app)), blockedWrites > 0, "session_write_cases")
 		if rec.WantSample() {
 			rec.Sample(describePair(cfg, fs, app))
+		}
+	})
+}
+
+// TestC04SessionWindow: the sender-side window rule at session level, with FEC:
+// a new sequence number goes on the wire only while fewer than
+// min(snd_wnd, the peer's window as last advertised in a datagram that
+// actually ARRIVED) segments are outstanding. With FEC on, the core is also fed
+// packets that were reconstructed from parity; those are older than what has
+// already been processed and their window field must not be taken as news. The
+// model takes the peer's window from the wire (regular data packets as they are
+// delivered, processed in order), never from the implementation. Congestion
+// control is switched off so that the two windows are the whole rule; slow and
+// stalled readers make the advertised window move.
+func TestC04SessionWindow(t *testing.T) {
+	rec := hx.NewRecorder(t)
+	rapid.Check(t, func(rt *rapid.T) {
+		cfg := drawPairCfg(rt, pairGenOpts{FECMode: 1, ForceDialed: true, Ciphers: []string{"null", "aes-128", "salsa20", "aes-128-gcm"}})
+		if rapid.Bool().Draw(rt, "smallGroups") {
+			d, q := rapid.IntRange(1, 3).Draw(rt, "fecDsmall"), rapid.IntRange(1, 2).Draw(rt, "fecPsmall")
+			cfg.FEC = [2][2]int{{d, q}, {d, q}}
+		}
+		for e := 0; e < 2; e++ {
+			cfg.Opts[e].NC = 1
+			cfg.Opts[e].RcvWnd = rapid.SampledFrom([]int{1, 2, 4, 8, 32}).Draw(rt, "rcvwnd")
+			cfg.Opts[e].SndWnd = rapid.SampledFrom([]int{2, 8, 32, 128}).Draw(rt, "sndwnd")
+		}
+		fs := sim.DrawFateScript(rt, sim.FateOpts{MaxExplicit: 12, MaxRegimes: 3, MaxRegLen: 120, MaxDelay: 300, MaxLossPm: 300})
+		app := drawSessApps(rt, pairMSS(cfg), 25, 80_000)
+		var pauseSum int64
+		for w := 0; w < 2; w++ {
+			var total int64
+			for _, n := range app[w].Writes {
+				total += int64(n)
+			}
+			if total > 0 && rapid.Bool().Draw(rt, "stalls") {
+				app[w].Pauses, _ = drawPauses(rt, total)
+				for i := range app[w].Pauses {
+					app[w].Pauses[i].Ms = min(app[w].Pauses[i].Ms, 40_000)
+					pauseSum += app[w].Pauses[i].Ms
+				}
+			}
+		}
+		var d snmpDelta
+		shrunk, newSegs := 0, 0
+		rapid.SyncTest(rt, func(rt *rapid.T) {
+			before := kcp.DefaultSnmp.Copy()
+			s := sim.NewSessSim(cfg.ClockOff, cfg.EntropySeed)
+			p, err := sim.NewPair(s, cfg, app)
+			if err != nil {
+				rt.Fatalf("setup: %v", err)
+			}
+			defer p.Finish(nil)
+			setPairLinks(s, p, fs)
+			rmtWnd := [2]uint32{32, 32} // what the core assumes before it has heard from its peer
+			seen := [2]map[uint32]bool{{}, {}}
+			endOf := func(addr string) int {
+				if addr == p.Addr[1].String() {
+					return 1
+				}
+				return 0
+			}
+			s.OnDeliver = func(to string, from net.Addr, data []byte) {
+				e := endOf(to)
+				_, pl, err := p.Crypto.Open(data)
+				if err != nil {
+					return
+				}
+				fr, err := wire.ParseFrame(pl, true)
+				if err != nil || fr.Type != wire.TypeData {
+					return // parity (and OOB) carry no window of their own
+				}
+				for _, sg := range fr.Segments {
+					if sg.Conv != cfg.Conv {
+						return
+					}
+					if uint32(sg.Wnd) < rmtWnd[e] {
+						shrunk++
+					}
+					rmtWnd[e] = uint32(sg.Wnd)
+				}
+			}
+			s.OnSent = func(dg *sim.Sent, from, to string, f *sim.Fate) error {
+				e := endOf(from)
+				_, pl, err := p.Crypto.Open(dg.Data)
+				if err != nil {
+					return err
+				}
+				fr, err := wire.ParseFrame(pl, true)
+				if err != nil || fr.Type != wire.TypeData {
+					return err
+				}
+				var una, sndWnd uint32
+				p.Sess[e].VerifWithKCP(func(k *kcp.KCP) { st := k.VerifState(false); una, sndWnd = st.SndUna, st.SndWnd })
+				for _, sg := range fr.Segments {
+					if sg.Cmd != wire.CmdPush || seen[e][sg.Sn] {
+						continue
+					}
+					seen[e][sg.Sn] = true
+					newSegs++
+					lim := min(sndWnd, rmtWnd[e])
+					if out := sdiff(sg.Sn, una); out >= 0 && uint32(out) >= lim {
+						return fmt.Errorf("end %d put new sn %d on the wire with %d segments outstanding; limit min(snd_wnd=%d, window the peer last advertised in a datagram that arrived=%d)", e, sg.Sn, out, sndWnd, rmtWnd[e])
+					}
+				}
+				return nil
+			}
+			err = runPairUntilComplete(p, s, fs.EndTime()+2*pauseSum, 0, cfg.Opts[0].Interval+cfg.Opts[1].Interval)
+			if err == errScriptUnfinished {
+				rec.Class("script_unfinished_inconclusive", 1)
+				err = nil
+			}
+			d = snmpSince(before)
+			if err != nil {
+				rt.Fatalf("C04 (session, FEC): %v\ncase: %+v", err, describePair(cfg, fs, app))
+			}
+		})
+		cl := []string{"cipher_" + cfg.Cipher}
+		if d.FECRecovered > 0 {
+			cl = append(cl, "fec_recovery_used")
+		}
+		if shrunk > 0 {
+			cl = append(cl, "advertised_window_shrank")
+		}
+		if pauseSum > 0 {
+			cl = append(cl, "reader_stalled")
+		}
+		rec.Add("n_new_segments_checked", int64(newSegs))
+		rec.Case(hx.Hash64(describePair(cfg, fs, app)), d.FECRecovered > 0 && shrunk > 0, cl...)
+		if rec.WantSample() {
+			dd := describePair(cfg, fs, app)
+			dd["fec_recovered"], dd["window_shrinks_seen"], dd["new_segments_checked"] = d.FECRecovered, shrunk, newSegs
+			rec.Sample(dd)
 		}
 	})
 }
